@@ -4,7 +4,7 @@
   block either that or `evH = h` (due at this block's end).
 -/
 import DymVerif.Lemmas.CoreLevEnd
-namespace DymVerif.Core
+namespace DymVerif.Core.LevNs
 
 /-- `d = 0`: between blocks; `d = 1`: inside a block (events due at its end are still queued) -/
 structure Exact (d : Nat) (s : St) : Prop where
@@ -179,4 +179,4 @@ theorem run_exact_between (p : Params) (hI : 1 ≤ p.lsInterval) (ops : List Op)
   · rw [run_p] at h1; exact Or.inr h1
   · cases h1
 
-end DymVerif.Core
+end DymVerif.Core.LevNs
